@@ -51,6 +51,7 @@ type PrioScenario struct {
 	FbCap    int          `json:"v1_feedback_capacity,omitempty"`
 	Script   []POp        `json:"script"`
 	Saturate bool         `json:"saturate,omitempty"`
+	Starved  bool         `json:"v1_some_priority_without_share,omitempty"` // no progress is expected, only safety
 	Fault    *DivFault    `json:"fault,omitempty"`
 	Seed     uint64       `json:"seed"`
 }
@@ -85,6 +86,7 @@ type prioResult struct {
 	TermWay         string
 	ErrValues       []string
 	CensusTaken     bool
+	ErrIgnored      bool
 	Leaked          int
 	HoldChecks      int // quiescent points at which the discipline was (correctly) still open although drained except for a withheld release / open input
 	StopState       string
@@ -99,6 +101,7 @@ type prioResult struct {
 	PriosWith2      int
 	Log             []string
 	Aborted         string
+	Stalled         string // Starved scenarios: the liveness expectation at which the run was ended
 }
 
 type ctlCall struct {
@@ -136,6 +139,7 @@ type prioExec struct {
 
 	outClosed           bool
 	errClosed           bool
+	ignoreErr           bool // this client never reads Err(): for it the closure of Output() is the termination
 	termSeen            bool
 	stopIssued          bool
 	stopRet             atomic.Bool
@@ -159,8 +163,23 @@ func (x *prioExec) logf(format string, a ...any) {
 	}
 }
 
+// livenessKeys are the findings that say "something should have happened by now": in a v1
+// configuration in which the divider leaves a priority without a share nothing of the kind is
+// promised, the scenario just ends there.
+var livenessKeys = map[string]bool{
+	"no-progress-idle": true, "alone-not-granted-all": true, "lone-burst-stalled": true, "not-refilled": true,
+	"share-mismatch": true, "share-exceeded": true, "ctl-hangs": true, "no-progress-epilogue": true, "never-delivered": true,
+	"never-delivered-after-control-calls": true, "no-termination": true, "graceful-not-returned": true, "ctl-not-returned": true,
+}
+
 func (x *prioExec) fail(prop, key, format string, a ...any) {
 	msg := fmt.Sprintf(format, a...)
+	if x.sc.Starved && livenessKeys[key] {
+		x.logf("stalled (no share for some priority, nothing claimed): %s", msg)
+		x.res.Stalled = key
+		x.failed = true
+		return
+	}
 	x.res.Findings = append(x.res.Findings, pFinding{prop, key, msg})
 	x.logf("VIOLATION %s %s", prop, msg)
 	x.failed = true
@@ -359,6 +378,9 @@ func (x *prioExec) onOutputClosed() {
 
 // pollErr reads whatever Err() has without blocking.
 func (x *prioExec) pollErr() {
+	if x.ignoreErr && x.mon != nil && x.mon.faulted.Load() {
+		return
+	}
 	for !x.errClosed {
 		select {
 		case e, ok := <-x.sys.errCh:
@@ -1104,6 +1126,11 @@ func (x *prioExec) epilogue() {
 	x.ctl.SetPhase("await-termination", "C07")
 	deadline := time.Now().Add(prioL)
 	for !x.errClosed && time.Now().Before(deadline) {
+		if faulted() {
+			// the injected fault hit one of the very last divisions
+			x.afterFault()
+			return
+		}
 		x.startRelease(x.pickRelease(POp{Mode: "all"}))
 		if x.termSeen {
 			// Output() is already closed: only Err() is left to wait for (virtual time must pass)
@@ -1112,6 +1139,10 @@ func (x *prioExec) epilogue() {
 			continue
 		}
 		x.await(min(time.Until(deadline), 2*time.Microsecond), func() bool { return x.errClosed || len(x.held) > 0 })
+	}
+	if !x.errClosed && faulted() {
+		x.afterFault()
+		return
 	}
 	if !x.errClosed {
 		x.fail("C07", "no-termination", "all inputs are closed and drained and every delivered item was released, but Err() was not closed within %s (virtual)", prioL)
@@ -1203,10 +1234,11 @@ func runPrioV(sc PrioScenario, ctl *bubbleCtl) *prioResult {
 			nilCtx = false
 		}
 	}
-	b := prioBuild{Ver: sc.Ver, Div: x.mon.divide, DivV1: x.mon.divideV1, HandleExitDelay: exitDelay, NilCtx: nilCtx, H: sc.H, OutCap: sc.OutCap, FbCap: sc.FbCap, Abort: x.abort, Entered: total + 8*int(sc.H) + 4096}
+	b := prioBuild{Ver: sc.Ver, Div: x.mon.divide, DivV1: x.mon.divideV1, HandleExitDelay: exitDelay, NilCtx: nilCtx, ReuseInputsMap: (sc.Seed/5)%2 == 0, H: sc.H, OutCap: sc.OutCap, FbCap: sc.FbCap, Abort: x.abort, Entered: total + 8*int(sc.H) + 4096}
 	for _, in := range x.chans {
 		b.Inputs = append(b.Inputs, in)
 	}
+	x.ignoreErr = sc.Ver == "v2" && sc.Fault != nil && (sc.Seed/7)%3 == 0
 	sys, err := buildPrio(b)
 	x.mon.created.Store(true)
 	if err != nil {
@@ -1254,6 +1286,9 @@ func runPrioV(sc PrioScenario, ctl *bubbleCtl) *prioResult {
 		}
 	}
 	res.PriosWith2 = two
+	if sc.Starved && !x.termSeen && x.sys.cancel != nil {
+		x.sys.cancel() // a starved discipline is ended by its context
+	}
 	// teardown of the harness goroutines; leftovers in old unbuffered channels are taken by us
 	close(x.abort)
 	done := make(chan struct{})
